@@ -797,7 +797,9 @@ def str_method(eng, st, s: StrV, meth, pos, kw, node):
         if isinstance(seq, ListV) and seq.elem == K_STR:
             sp = eng.registry.spec_value("Join", eng)
             if sp is None:
-                raise Unsupported("str.join over symbolic list needs spec Join")
+                f = z3.Function("py_str_join", z3.StringSort(), seq.t.sort(), z3.StringSort())
+                eng.trusted_used.add("str.join over a symbolic list: uninterpreted pure function")
+                return [(st, StrV(f(t, seq.t)))]
             return eng.call(st, sp, [s, seq], {}, node)
         raise Unsupported("str.join arg")
     if meth == "format":
@@ -806,10 +808,25 @@ def str_method(eng, st, s: StrV, meth, pos, kw, node):
         sp = eng.registry.spec_value("Str_" + meth, eng)
         if sp is not None:
             return eng.call(st, sp, [s, *pos], kw, node)
-        raise Unsupported(f"str.{meth}")
     if meth == "translate" and len(pos) == 1 and isinstance(pos[0], ConstV) and isinstance(pos[0].obj, dict):
         eng.trusted_used.add("str.translate(table): per-character map, defined recursively over the string (builtin model)")
         return [(st, StrV(translate_fn(pos[0].obj)(t)))]
+    # any other str method with str/int arguments: a pure function of its arguments, left uninterpreted
+    RET = {"split": KList(K_STR), "rsplit": KList(K_STR), "splitlines": KList(K_STR),
+           "partition": KTuple([K_STR, K_STR, K_STR]), "rpartition": KTuple([K_STR, K_STR, K_STR]),
+           "title": K_STR, "capitalize": K_STR, "casefold": K_STR, "swapcase": K_STR, "strip": K_STR, "lstrip": K_STR,
+           "rstrip": K_STR, "replace": K_STR, "zfill": K_STR, "center": K_STR, "ljust": K_STR, "rjust": K_STR,
+           "removeprefix": K_STR, "removesuffix": K_STR, "expandtabs": K_STR, "format": K_STR,
+           "isdigit": K_BOOL, "isalpha": K_BOOL, "isalnum": K_BOOL, "isnumeric": K_BOOL, "isdecimal": K_BOOL,
+           "islower": K_BOOL, "isupper": K_BOOL, "isidentifier": K_BOOL, "istitle": K_BOOL, "isascii": K_BOOL,
+           "count": K_INT, "index": K_INT, "rfind": K_INT, "rindex": K_INT, "find": K_INT}
+    if meth in RET and not kw and all(isinstance(p, (StrV, IntV, NoneV)) for p in pos):
+        rk = RET[meth]
+        args = [p for p in pos if not isinstance(p, NoneV)]
+        sig = "_".join("s" if isinstance(p, StrV) else "i" for p in args)
+        f = z3.Function(f"py_str_{meth}_{len(pos)}_{sig}", z3.StringSort(), *[p.t.sort() for p in args], rk.sort())
+        eng.trusted_used.add(f"str.{meth}: uninterpreted pure function of its arguments")
+        return [(st, unbox(f(t, *[p.t for p in args]), rk))]
     raise Unsupported(f"str.{meth}")
 
 
@@ -1087,8 +1104,21 @@ def _restore(st, saved):
 def _comp_symbolic(eng, st, e, gen, it, kind):
     """[f(x) for x in seq] over a symbolic sequence: fresh result with pointwise axiom.
     Filters need a spec function and are out of subset here."""
-    if gen.ifs or kind not in ("list", "gen"):
-        raise Unsupported("symbolic comprehension with filter / non-list")
+    if kind not in ("list", "gen"):
+        raise Unsupported("symbolic set/dict comprehension")
+    if gen.ifs:
+        # filtered comprehension over a symbolic sequence: over-approximated by an unconstrained list of the
+        # element kind, no longer than the source (sound for postconditions: nothing about its content is known)
+        if not (isinstance(it, ListV) and isinstance(gen.target, ast.Name)):
+            raise Unsupported("filtered comprehension over " + type(it).__name__)
+        probe = st.bind(gen.target.id, fresh(it.elem, "cx"))
+        res = [r for r in eng.eval(e.elt, probe) if not isinstance(r[1], RaiseV)]
+        if not res:
+            raise Unsupported("comprehension body always raises")
+        ek = res[0][1].kind
+        r = z3.FreshConst(z3.SeqSort(ek.sort()), "fcomp")
+        eng.trusted_used.add("filtered comprehension over a symbolic list: over-approximated (unconstrained result)")
+        return [(st.assume(z3.Length(r) <= z3.Length(it.t)), ListV(ek, r))]
     if isinstance(it, RangeV):
         n = it.length()
         k = z3.FreshConst(z3.IntSort(), "ci")
@@ -1407,6 +1437,19 @@ def _b_hasattr(eng, st, pos, kw):
 
 def _b_next(eng, st, pos, kw):
     items = concrete_items(eng, pos[0])
+    if items is None and isinstance(pos[0], ListV):
+        # first element of a freshly created generator whose items are a symbolic list
+        lst = pos[0]
+        n = z3.Length(lst.t)
+        first = elem_at(lst.elem, lst.t, z3.IntVal(0))
+        outs = []
+        s1 = st.assume(n > 0)
+        if eng.feasible(s1):
+            outs.append((s1, first))
+        s0 = st.assume(n <= 0)
+        if eng.feasible(s0):
+            outs.append((s0, pos[1] if len(pos) > 1 else RaiseV("StopIteration", None, "next")))
+        return outs
     if items is None:
         raise Unsupported("next over symbolic iterator")
     if items:
